@@ -160,6 +160,7 @@ class Item:
     end: int         # token index one past the item's last token
     head: int        # token index of the first qualifier (`pub`, `const`, `unsafe` ..) or == start
     cfg_test: bool = False
+    owner_full: str = ''   # the same with generic arguments kept, no blanks ("AccessTime for DeqNode<KeyDate<K>>" -> "AccessTimeforDeqNode<KeyDate<K>>")
 
 
 def _impl_owner(toks, i):
@@ -167,6 +168,7 @@ def _impl_owner(toks, i):
     j = i + 1
     if toks[j].text == '<': j = skip_generics(toks, j)
     hdr = []
+    full = []
     d = 0
     while True:
         t = toks[j].text
@@ -176,10 +178,10 @@ def _impl_owner(toks, i):
             while toks[j].text != '{': j += 1
             break
         if t == '<':
-            j = skip_generics(toks, j); continue   # drop generic arguments from the owner key
+            j2 = skip_generics(toks, j); full += [x.text for x in toks[j:j2]]; j = j2; continue   # drop generic arguments from the owner key
         if t == '(' : j = match_close(toks, j) + 1; continue
-        hdr.append(t); j += 1
-    return ' '.join(hdr), j
+        hdr.append(t); full.append(t); j += 1
+    return ' '.join(hdr), j, ''.join(full)
 
 
 def items(toks):
@@ -232,10 +234,13 @@ def items(toks):
         while i < hi:
             t = toks[i]
             if t.text == 'impl' and t.kind == 'id' and (i == 0 or toks[i - 1].text not in ('&', ':', '->', '(', ',', '<', '=', '+', 'dyn')):
-                own, b = _impl_owner(toks, i)
+                own, b, full = _impl_owner(toks, i)
                 e = match_close(toks, b)
                 test = in_test or any('cfg ( test )' in a for a in attrs_before(head_of(i)))
+                n0 = len(out)
                 walk(b + 1, e, own, test)
+                for it in out[n0:]:
+                    if not it.owner_full: it.owner_full = full
                 i = e + 1; continue
             if t.text in ('mod', 'trait') and t.kind == 'id' and i + 2 < hi and toks[i + 1].kind == 'id':
                 j = i + 2
@@ -289,5 +294,9 @@ def items(toks):
 
 def find_item(toks, kind, owner, name, all_items=None):
     its = all_items if all_items is not None else items(toks)
+    if '<' in owner:
+        # an owner written with its generic arguments selects among impls of the same trait for different instances of a type
+        key = owner.replace(' ', '')
+        return [it for it in its if it.kind == kind and it.name == name and it.owner_full == key and not it.cfg_test]
     c = [it for it in its if it.kind == kind and it.name == name and (owner == '*' or it.owner == owner) and not it.cfg_test]
     return c
